@@ -74,6 +74,10 @@ def canon(tag, v, env):
         return "u" + (str(int(v)) if float(v).is_integer() else float(v).hex())
     if tag == "numlist":
         return "L(" + ",".join(canon("number", x, env) for x in v) + ")"
+    if tag == "numnest":
+        return "N(" + ",".join(canon("numlist", x, env) for x in v) + ")"
+    if tag == "ecall":
+        return "x" + str(env["etokens"][id(v)])
     if tag == "gen":
         return "g" + str(env["gtokens"][id(v)])
     if tag == "complex":
@@ -94,7 +98,8 @@ GEN_SPECS = {
     "GC": ("fresh", None, [("n", "nested", "FACTORY"), ("p", "prefixed", "ONE"), ("s", "scalar", 1)]),
     "GD": ("fresh", None, [("m", "module", None), ("k", "int", 0)]),
     "GX": ("fresh", None, [("c", "complex", None), ("k", "int", 0)]),     # a value the naming serialiser may refuse: calls may raise
-    "GM": ("fresh", None, [("n", "number", None), ("v", "numlist", "LIST")]),
+    "GM": ("fresh", None, [("n", "number", None), ("v", "numlist", "LIST"), ("w", "numnest", "LIST")]),
+    "GE": ("fresh", None, [("c", "ecall", None), ("k", "int", 0)]),      # an ExternalModuleCall-valued parameter: like-named external modules of two Python modules
     "GG": ("fresh", None, [("g", "gen", None), ("k", "int", 0)]),        # a Generator-valued parameter: like-named generators of different Python modules
     "GU": ("uncached", None, [("a", "int", None)]),                       # enable_cache=False, result depends on more than its parameters
 }
@@ -116,12 +121,23 @@ def foreign_generators():
             d = root / pkg
             d.mkdir(parents=True, exist_ok=True)
             src = ("import hdl21 as h\n\n\n@h.generator\ndef Unit(p: h.HasNoParams) -> h.Module:\n    m = h.Module()\n    m.a = h.Signal(width=%d)\n    return m\n\n\n"
-                   "@h.generator\ndef Other(p: h.HasNoParams) -> h.Module:\n    m = h.Module()\n    m.b = h.Signal()\n    return m\n") % (1 if pkg == "c09pa" else 2)
+                   "@h.generator\ndef Other(p: h.HasNoParams) -> h.Module:\n    m = h.Module()\n    m.b = h.Signal()\n    return m\n\n\n"
+                   "nand2 = h.ExternalModule(name='nand2', port_list=[h.Port(name='a')], desc='a vendor cell')\n"
+                   "other = h.ExternalModule(name='other', port_list=[h.Port(name='a')], desc='a vendor cell')\n") % (1 if pkg == "c09pa" else 2)
             (d / "__init__.py").write_text(src)
         sys.path.insert(0, str(root))
         pa, pb = importlib.import_module("c09pa"), importlib.import_module("c09pb")
         _FOREIGN.extend([pa.Unit, pb.Unit, pa.Other])
+        _FOREIGN_EXT.extend([pa.nand2(), pb.nand2(), pa.other(), pa.nand2()])        # the last is equal to the first: one value, two objects
     return _FOREIGN
+
+
+_FOREIGN_EXT = []
+
+
+def foreign_ext_calls():
+    foreign_generators()
+    return _FOREIGN_EXT
 
 
 def make_env(h):
@@ -136,7 +152,9 @@ def make_env(h):
     env["NP"] = NP
     dt = {"int": int, "float": float, "str": str, "optint": Optional[int], "optstr": Optional[str], "enum": Color,
           "prefixed": h.Prefixed, "scalar": h.Scalar, "nested": NP, "module": h.Instantiable, "complex": complex,
-          "number": Union[int, float], "numlist": Tuple[Union[int, float], ...], "gen": h.Generator}
+          "number": Union[int, float], "numlist": Tuple[Union[int, float], ...], "gen": h.Generator, "numnest": tuple, "ecall": h.ExternalModuleCall}
+    env["ecalls"] = foreign_ext_calls()
+    env["etokens"] = {id(c): k % 3 for k, c in enumerate(env["ecalls"])}        # (the fourth call equals the first: same external module, same parameters)
     env["gunits"] = foreign_generators()
     env["gtokens"] = {id(g): k for k, g in enumerate(env["gunits"])}
     m1 = h.Module(name="Unit1")
@@ -222,6 +240,10 @@ def concretize(env, step):
                 kw[f] = Color[kw[f]]
             if f in kw and tag == "gen":
                 kw[f] = env["gunits"][kw[f]]
+            if f in kw and tag == "ecall":
+                kw[f] = env["ecalls"][kw[f]]
+            if f in kw and tag == "numnest":
+                kw[f] = tuple(tuple(x) for x in kw[f])
             if f in kw and tag in ("prefixed", "scalar") and isinstance(kw[f], list):
                 from hdl21.prefix import Prefixed, Prefix
                 kw[f] = Prefixed(number=Decimal(kw[f][0]), prefix=Prefix.from_exp(kw[f][1]))
@@ -280,7 +302,7 @@ STRS = ["x", "x b=y", "y b=z", "z", "None", "", "a=1", "x" * 119, "x" * 120, "x"
 
 
 def rich_step(rnd):
-    g = rnd.choice(["GS", "GS", "GB", "GC", "GD", "GA", "GA", "GP", "GN", "GX", "GU", "GM", "GM", "GG", "GG", "GT", "GT", "GF", "GF"])
+    g = rnd.choice(["GS", "GS", "GB", "GC", "GD", "GA", "GA", "GP", "GN", "GX", "GU", "GM", "GM", "GG", "GG", "GT", "GT", "GF", "GF", "GE", "GE"])
     form = rnd.choice(["kw", "inst"])
     if g == "GS":
         kw = {"a": rnd.choice(STRS)}
@@ -306,6 +328,10 @@ def rich_step(rnd):
         kw = {"n": rnd.choice([1, 1.0, 2, 2.0, 2.5, 0, 0.0, -0.0, 10 ** 20, 1e20])}
         if rnd.random() < 0.4:
             kw["v"] = tuple(rnd.choice([[1, 2.5], [1.0, 2.5], [1], [1.0], [0.0], [-0.0], [0]]))
+        if rnd.random() < 0.4:
+            kw["w"] = rnd.choice([[[0, 0], [1, 1.0]], [[0.0, 0], [1.0, 1]], [[0, 0], [1, 1]], [[1, 2.5]], [[1.0, 2.5]]])
+    elif g == "GE":
+        kw = {"c": rnd.choice([0, 1, 2, 3])}
     elif g == "GF":
         kw = {"f": rnd.choice([0.1 + 0.2, 0.3, 1 / 3, 0.3333333, 1.0000001, 1.0000002, 1.0, 1e-11, 1e22, 0.5, -0.0, 0.0])}
         if rnd.random() < 0.4:
